@@ -298,7 +298,7 @@ def run(ctx, rep):
             continue
         rep.check(kind is not None, "R7.5", "R7.5|offset|%s|%s" % (fnshort, (emit.codes_in(tm) or ["-"])[0]),
                   "leading offset is a %s" % kind, where(s["sp"]), "leading offset of the message is %s — not a word position, packet offset or frame start" % sso[:140])
-    rep.floor("R7.5", n_fmt, 10, "formatted Error messages")
+    rep.floor("R7.5", n_fmt, 8, "formatted Error messages (10 counted on the pinned tree; two may legitimately share one template)")
     # offset parameters are fed with the packet's own offset: report_rdh_error ← do_rdh_checks ← do_checks (tuple .2)
     if LV + "do_checks" in f.fns:
         b = cg.body(LV + "do_checks")
